@@ -349,6 +349,7 @@ class SerialEngine(Engine):
     base = {'sels': ['m.f', 'n.g', 'm.Foo', 'm.foo'], 'modules': MODS, 'maxlen': 80, 'indent': 4}
     return [
         dict(base, ops=[['bind', 'mm/gin.macro.value', ['obj', 'o1']], ['bind', 'f.a', ['i', 3]]]),           # F17
+        dict(base, ops=[['bind', 'gin.macro.value', ['i', 5]], ['pbind', 'mm', ['i', 1]], ['bind', 'f.a', ['i', 3]]]),   # F58
         dict(base, ops=[['bind', 'Foo.a', ['i', 1]], ['bind', 'foo.a', ['i', 2]]]),                          # F14
         dict(base, classes=CLASSES, ops=[['bind', 'cluster.local.Worker.run.a', ['i', 1]], ['pbind', 'remote.Worker.run.a', ['i', 2]],
                                          ['bind', 'Worker.stop.b', ['i', 2]], ['pbind', 'Solo.go.b', ['i', 3]], ['bind', 'Solo.a', ['i', 3]],
@@ -431,6 +432,11 @@ class SerialEngine(Engine):
         v = gen_value(rng, regs, 1)
         if v[0] != 'macro':
           ops.append(['pbind', m, v] if textable(v) else ['bind', m + '/gin.macro.value', v])
+    if rng.random() < 0.08:
+      # gin.macro's own parameter bound in the ROOT scope: an ordinary binding (section "macro"), not a macro named ""
+      v = gen_value(rng, regs, 1)
+      if v[0] != 'macro':
+        ops.insert(rng.randint(0, len(ops)), ['bind', 'gin.macro.value', v])
     indent = rng.choice([0, 2, 4, 8])
     return {'sels': sels, 'classes': classes, 'modules': MODS, 'ops': ops, 'maxlen': rng.choice([indent + 1, indent + 5, 20, 40, 80, 120]),
             'indent': indent}
